@@ -18,10 +18,17 @@ only when its branches do nothing but log (LOG_* streams, getters): an added log
 disturb the tie, a flipped operator or constant keeps the variables and breaks the link lemma, and
 anything else - a guard with other variables, a missing guard, an extra if that assigns, returns or
 calls non-logging code - is reported as FALLBACK and the function's definitions are omitted, so the
-tie lemmas about it stop compiling (fail closed)."""
+tie lemmas about it stop compiling (fail closed).
+Added 2026-10-02 (finding F-27, findings/C11.md): a single-assignment local copy of errno (`int savedErrno = errno;`,
+only read afterwards) is replaced by its initialiser before a guard is matched and translated (lib/errno_order.py), so
+`savedErrno == EPIPE || savedErrno == ECONNRESET` and `errno == EPIPE || errno == ECONNRESET` give the same
+`sendInLoop_fatal_test (errno : Z)`; WHEN the tested value is taken is the separate generated fact
+`sendInLoop_tests_saved_errno` (true iff no log statement lies on the path between sockets::write and the point where
+the value tested by an errno guard is captured; link: Properties_C11.C11_errno_captured_before_log)."""
 import os, sys, json
 sys.path.insert(0, os.path.dirname(os.path.abspath(__file__)))
 import cxxast
+import errno_order
 
 SRC = "muduo/net/TcpConnection.cc"
 
@@ -114,8 +121,9 @@ def select(fn, expected):
     raises Untranslatable (fail closed)"""
     todo = list(expected)
     sel, notes = [], []
+    copies = errno_order.errno_copies(fn)
     for n in ifs(fn):
-        vs = cond_vars(kids(n)[0])
+        vs = cond_vars(errno_order.canon(kids(n)[0], copies))
         if todo and vs is not None and vs == todo[0][1]:
             sel.append((todo.pop(0)[0], n))
         elif logging_only(n):
@@ -222,7 +230,7 @@ def main():
         fns[short] = f
         sel_ifs[short] = dict(sel)
         for nm, n in sel:
-            emit_guard("%s_%s" % (short, nm), kids(n)[0])
+            emit_guard("%s_%s" % (short, nm), errno_order.canon(kids(n)[0], errno_order.errno_copies(f)))
 
     # ---- send(): the overloads that test the state
     try:
@@ -304,6 +312,10 @@ def main():
         def write_len():
             return args_of(call_named(f, "write"))[2]
         expr("sendInLoop_write_len", write_len, "sockets::write(fd, data, <this>)")
+        fact("sendInLoop_tests_saved_errno",
+             lambda: errno_order.tests_saved_errno(f, "write", [kids(sel_ifs["sendInLoop"][g])[0] for g in ("not_wouldblock_test", "fatal_test")]),
+             "no log statement (muduo::Logger temporary -> user-replaceable output function) lies on the path between sockets::write and the point where "
+             "the errno value tested by `!= EWOULDBLOCK` / `== EPIPE || == ECONNRESET` is captured (F-27: the logger's sink may change errno)")
     if "handleWrite" in fns:
         f = fns["handleWrite"]
         expr("handleWrite_retrieve_arg", lambda: args_of(call_named(f, "retrieve"))[0], "outputBuffer_.retrieve(<this>)")
